@@ -247,6 +247,13 @@ def feature_matrix_spec():
                                   "responses": {"200": {"description": "ok", "content": {"application/json": {"schema": {"type": "string"}}}}, "404": nf}}}
     paths["/tags/{t}/n"] = {"get": {"operationId": "count_tag", "parameters": [{"name": "t", "in": "path", "required": True, "schema": {"type": "string"}}],
                                     "responses": {"200": {"description": "ok", "content": {"application/json": {"schema": {"type": ["string", "null"]}}}}, "404": nf}}}
+    # text media types whose schema is a structured type / enum / number (decoded from text)
+    paths["/forecast"] = {"get": {"operationId": "get_forecast", "responses": {
+        "200": {"description": "ok", "content": {"text/plain": {"schema": R("Sub")}, "application/json": {"schema": R("Sub")}, "text/json": {"schema": R("Sub")}}},
+        "404": {"description": "nf", "content": {"text/plain": {"schema": R("Sub")}}},
+        "409": {"description": "c", "content": {"text/plain": {"schema": R("SharedKind")}}},
+        "410": {"description": "g", "content": {"text/csv": {"schema": {"type": "integer"}}}},
+        "default": {"description": "d", "content": {"text/html": {"schema": {"type": "string"}}}}}}}
     # a type used DIRECTLY in one direction and only through a container in the other
     paths["/shared/in"] = {"post": {"operationId": "shared_in", "parameters": [{"name": "kind", "in": "query", "schema": R("SharedKind")}],
                                     "requestBody": {"required": True, "content": {"application/json": {"schema": R("SharedLeaf")}}}, "responses": {"204": {"description": "n"}}}}
